@@ -483,6 +483,7 @@ type runOpts struct {
 	budget  time.Duration
 	workers int
 	noMin   bool
+	first   int
 }
 
 func parallelJobs(b *Build, jobs []Job, workers int, timeout time.Duration, deadline time.Time, sink func(Job, jobResult)) (skipped int) {
@@ -532,7 +533,7 @@ func doRun(o runOpts) int {
 		chunk = 150
 	}
 	var jobs []Job
-	for i := 0; i < total; i += chunk {
+	for i := o.first; i < total; i += chunk {
 		idx := []int{}
 		for k := i; k < i+chunk && k < total; k++ {
 			idx = append(idx, k)
@@ -1143,11 +1144,12 @@ func main() {
 		budget := fs.Duration("budget", 0, "wall-clock budget for the search")
 		workers := fs.Int("workers", runtime.NumCPU(), "parallel worker processes")
 		noMin := fs.Bool("no-minimise", false, "skip minimisation")
+		first := fs.Int("first", 0, "first index to run (to resume or to look at a range)")
 		if len(os.Args) < 3 {
 			fatal2("usage: vcheck run <ID> ...")
 		}
 		fs.Parse(os.Args[3:])
-		o := runOpts{prop: os.Args[2], tier: *tier, seed: *seed, runs: *runs, budget: *budget, workers: *workers, noMin: *noMin}
+		o := runOpts{prop: os.Args[2], tier: *tier, seed: *seed, runs: *runs, budget: *budget, workers: *workers, noMin: *noMin, first: *first}
 		if o.tier == "" {
 			o.tier = os.Getenv("VERIF_TIER")
 		}
